@@ -97,7 +97,7 @@ theorem noOrphan_sessionCreate {s s' : State} {idx : Nat} {r : SessReq}
   all_goals (refine noOrphan_updateSessionCheck hr ?_)
   all_goals (
     next hnode _ _ =>
-    refine ⟨hs.svc_node, hs.chk_node, hs.chk_svc, ?_, hs.nf_svc, hs.nf_chk, hs.nf_node⟩
+    refine ⟨hs.svc_node, hs.chk_node, hs.chk_svc, ?_, hs.nf_svc, hs.nf_chk, hs.nf_node, hs.srt_nodes, hs.srt_svcs⟩
     intro y hy
     have hy' : y ∈ tupsert Sess.pk strLt _ s.sessions := hy
     rcases mem_tupsert hy' with rfl | hy'
